@@ -19,6 +19,11 @@ real operator runs, so a swallowed MemoryError or a child that never comes back 
 bound these sizes are compared with is read from lian's own ``config.MAX_FOLDED_CONSTANT_BITS``.  The largest
 constant stored in the P2 / P3 state spaces and the peak RSS of the child are recorded as well.
 
+Element lists of array states: ``util.add_to_list_with_default_set`` (the helper that extends a list up to a written
+index) is wrapped and the growth it really caused is measured (cells added by one call, resulting length), and after
+every array / slice statement handler the longest element list of the defined symbol's states is measured, so an
+extension made inline is seen as well; the longest element list in the saved state spaces is recorded too.
+
 A snapshot of all counters is appended to a JSON-lines file every ``interval`` seconds (SIGALRM handler, runs
 between two byte codes of the analysing thread) so that a child that has to be killed still leaves its counter
 time series behind.  If ``limits`` is given every increment is compared with the counter's envelope and the child
@@ -195,7 +200,8 @@ class WorkCount:
         """Counter k crossed its envelope: leave the witness behind and end the child."""
         lim = (self.limits or {}).get(k)
         self.aborted = (k, v, lim)
-        self.dump(note={"abort": "envelope", "counter": k, "value": v, "limit": lim, "evals": self.evals[:4]})
+        self.dump(note={"abort": "envelope", "counter": k, "value": v, "limit": lim, "evals": self.evals[:4],
+                        "info": {k: v for k, v in self.info.items() if isinstance(v, (str, int, float))}})
         try:
             sys.stdout.flush(); sys.stderr.flush()
         except Exception:
@@ -501,9 +507,44 @@ def install(dump_path=None, interval=2.0, limits=None, sysmon=True):
     o_p3_target = GSS.GlobalStmtStates.compute_target_method_states
     o_p2_target = SS.StmtStates.compute_target_method_states
 
+    ARRAY_OPS = ("array_write", "array_insert", "array_append", "array_extend", "array_read", "new_array",
+                 "slice_write", "slice_read", "forin_stmt")
+
+    def longest_array(self, indexes):
+        m = 0
+        space = self.frame.symbol_state_space
+        for i in indexes or ():
+            st = space[i]
+            arr = getattr(st, "array", None)
+            if arr is not None and len(arr) > m:
+                m = len(arr)
+        return m
+
     def ss_run(self, stmt_id, stmt, status, in_states, used):
         inc("handler_runs", 1)
-        return o_ss_run(self, stmt_id, stmt, status, in_states, used)
+        op = getattr(stmt, "operation", "")
+        if op not in ARRAY_OPS:
+            return o_ss_run(self, stmt_id, stmt, status, in_states, used)
+        before = 0
+        try:
+            if status.used_symbols:
+                before = longest_array(self, self.read_used_states(status.used_symbols[0], in_states))
+        except Exception:
+            before = 0
+        r = o_ss_run(self, stmt_id, stmt, status, in_states, used)
+        try:
+            sym = self.frame.symbol_state_space[status.defined_symbol]
+            after = longest_array(self, getattr(sym, "states", None))
+            inc("array_stmts", 1)
+            if after > before:
+                if after - before > c.get("array_max_gap", 0):
+                    wc.info["array_witness"] = (f"{op} at line {int(getattr(stmt, 'start_row', -1)) + 1}: element list "
+                                                f"{before} -> {after} cells")
+                mx("array_max_gap", after - before)
+            mx("array_max_len", after)
+        except Exception:
+            pass
+        return r
 
     def two(self, stmt, state1, state2, defined_symbol):
         inc("fold_calls", 1)
@@ -564,6 +605,27 @@ def install(dump_path=None, interval=2.0, limits=None, sysmon=True):
         return v
 
     U.strict_eval = strict_eval
+
+    # ---- element lists extended up to a written index -------------------------------------------------------
+    o_addlist = getattr(U, "add_to_list_with_default_set", None)
+    if callable(o_addlist):
+        def add_to_list_with_default_set(l, index, value):
+            n0 = len(l) if isinstance(l, list) else 0
+            r = o_addlist(l, index, value)
+            try:
+                inc("array_list_writes", 1)
+                grown = len(l) - n0
+                if grown > 0:
+                    inc("array_cells_added", grown)
+                    if grown > c.get("array_max_gap", 0):
+                        wc.info["array_witness"] = f"add_to_list_with_default_set(index={index}): element list {n0} -> {len(l)} cells"
+                    mx("array_max_gap", grown)          # synchronous: the child ends here when over its limit
+                    mx("array_max_len", len(l))
+            except TypeError:
+                pass
+            return r
+
+        U.add_to_list_with_default_set = add_to_list_with_default_set
 
     # ---- constant folding on decoded values (lian.util.const_fold) -----------------------------------------
     try:
@@ -681,6 +743,9 @@ def install(dump_path=None, interval=2.0, limits=None, sysmon=True):
     def largest_constant(space):
         m, w = 0, None
         for item in space:
+            arr = getattr(item, "array", None)
+            if arr:
+                mx("space_max_array_len", len(arr))
             v = getattr(item, "value", None)
             if isinstance(v, (str, bytes, int)) and not isinstance(v, bool):
                 b = _bits(v)
